@@ -589,6 +589,10 @@ class StmtMixin:
             j = rec[:k].count(h)
             where = [i for i, x in enumerate(cur) if x == h]
             if j >= len(where):
+                # the header itself was rewritten: the contract stays with the ordinal when the number of loops is unchanged
+                # (its obligations decide whether it still fits); otherwise it cannot be placed
+                if len(cur) == len(rec):
+                    continue
                 raise Unsupported(f"loop anchor not found in {fn.fqn}: {h!r} (ordinal {k} on the recorded tree; the code changed "
                                   "shape, the loop contract must be re-anchored)")
             moved[k] = where[j]
